@@ -28,6 +28,7 @@ def norm_dicts(s):
     try: parts, _ = parse(0, "\0"); return ", ".join(parts)
     except Exception: return s
 
+FUN_KINDS = ["closure", "closure", "pipe", "collect", "spread", "codec", "module"]
 class EqGen:
     """values as trees (so that a value can be PERTURBED at one numeric leaf into a host-hash-colliding partner), rendered to program text"""
     def __init__(s, R): s.R = R
@@ -64,6 +65,7 @@ class EqGen:
         if k < .82: return ("str", R.randrange(-3, 4))
         if k < .86: return ("nil",)
         if k < .93: return ("io", R.choice(["ret", "print", "read", "bind2", "bind3", "bind3b"]), R.randrange(0, 3))
+        if k < .97: return ("fun", R.choice(FUN_KINDS), R.randrange(0, 3))
         return ("int", R.randrange(-2, 3))
     def val_t(s, d):
         R = s.R; k = R.random()
@@ -87,6 +89,10 @@ class EqGen:
             n = E(t[2])
             return {"ret": f"({n} ㄱㅅㅎㄴ)", "print": f"({n} ㅁㅈㅎㄴ ㅈㄹㅎㄴ)", "read": "(ㄹㅎㄱ)", "bind2": f"(({n} ㄱㅅㅎㄴ) ㄱㅅ ㄱㄹㅎㄷ)",
                     "bind3": f"(({n} ㄱㅅㅎㄴ) ㄱㅅ ㄱㅅ ㄱㄹㅎㄹ)", "bind3b": f"(({n} ㄱㅅㅎㄴ) ㄱㅅ ㅈㄹ ㄱㄹㅎㄹ)"}[t[1]]
+        if k == "fun":     # functions compare by IDENTITY whatever their kind: two evaluations of one text give two different functions (a built-in
+            n = E(t[2])    # module's entry is the one object in the module's table), and functions of different kinds never coincide
+            return {"closure": f"({n} ㅎ)", "pipe": f"(({n} ㅎ) (ㄱㅇㄱ ㅎ) ㄴㄱㅎㄷ)", "collect": f"(({n} ㅎ) ㅁㅂㅎㄴ)", "spread": f"(({n} ㅎ) ㅂㅂㅎㄴ)",
+                    "codec": f"(ㄴ {n} ㅂ ㅂ ㅂㅎㄷ ㅎㄷ)", "module": f"(ㅂ ㅂㄷ {'ㄱㄷㅂ'[t[2]]} ㅂㅎㄹ)"}[t[1]]
         if k == "list": return call("ㅁㄹ", [s.render(x) for x in t[1]])
         if k == "exc": return call("ㄷㅂ", [s.render(x) for x in t[1]])
         return call("ㅅㅈ", [y for kv in t[1] for y in (s.render(kv[0]), s.render(kv[1]))])
@@ -123,6 +129,7 @@ class EqGen:
             if c < .7: return ("float" if k == "int" else "int", n)          # numerically equal across the tower (when exactly representable)
             if c < .85: return (k, n + 1)
             return (k, n * 2**61 if n else 2**61 - 1)
+        if k == "fun": return ("fun", R.choice(FUN_KINDS), t[2])
         if k == "io": return ("io", R.choice(["ret", "print", "read", "bind2", "bind3", "bind3b"]), t[2]) if R.random() < .7 else ("io", t[1], (t[2] + 1) % 3)
         if k in ("list", "exc") and t[1]:
             i = R.randrange(len(t[1])); return (k, [s.perturb(x) if j == i else x for j, x in enumerate(t[1])])
@@ -372,16 +379,18 @@ def utf_encode(s, w, order):
     return bytes(out)
 
 def c16_codecs(r, seed, tier, model_ok):
-    """integers in and just outside range x widths 1..16 x {big, little, unspecified} x {signed, unsigned}: encode, decode, round trip,
+    """integers in and just outside range x widths 0..16 x {big, little, unspecified} x {signed, unsigned}: encode, decode, round trip,
     rejection, vs the extracted two's-complement model; strings of scalar values x UTF-8/16/32 x byte orders vs an independent RFC encoder"""
     R = random.Random(seed * 7919 + 0xC16); n = N(tier, 6000, 200000)
     def fmtb(bs): return "b'" + "".join(f"\\x{x:02X}" for x in bs) + "'"
     def codec(sch, w, order): return call(call("ㅂ", ["ㅂ", "ㅂ"]), [E(sch), E(w)] + ([] if order is None else [call("ㅈㅈ" if order == "be" else "ㄱㅈ", [])]))
     cases = []; want = []; kinds = collections.Counter()
     ints = []
-    for w in range(1, 17):
+    def bounds(w, signed):          # two's complement in w bytes; NO bytes hold 0 and nothing else (-1/2 <= n < 1/2)
+        return (0, 0) if w == 0 else (-(256**w) // 2, 256**w // 2 - 1) if signed else (0, 256**w - 1)
+    for w in range(0, 17):
         for signed in (False, True):
-            lo, hi = (-(256**w) // 2, 256**w // 2 - 1) if signed else (0, 256**w - 1)
+            lo, hi = bounds(w, signed)
             pts = {lo, lo - 1, lo + 1, hi, hi + 1, hi - 1, 0, -1, 1, lo - 3, hi + 3}
             if w <= 2 and tier != "quick": pts |= set(range(lo - 2, hi + 3))
             elif w == 1: pts |= set(range(lo - 2, hi + 3))
@@ -390,7 +399,7 @@ def c16_codecs(r, seed, tier, model_ok):
                 for order in (None, "le", "be"): ints.append((w, signed, order, v))
     R.shuffle(ints)
     for w, signed, order, v in ints[:n]:
-        lo, hi = (-(256**w) // 2, 256**w // 2 - 1) if signed else (0, 256**w - 1)
+        lo, hi = bounds(w, signed)
         c = codec(2 if signed else 1, w, order)
         cases.append(dict(text=f"{E(v)} {c} ㅎㄴ", trace=False)); kinds["int-encode"] += 1
         if lo <= v <= hi:
@@ -567,6 +576,28 @@ def c17_bits(r, seed, tier, model_ok):
         r.slice("model_roundings_vs_exact", len(dm), len(set(dm)), [dm[0]], dict(), "the model's Float.rounding (integer arithmetic on sign, mantissa, exponent) vs exact rational arithmetic", badm[:40])
 
 # ------------------------------------------------------------------ C18
+def shared_action_containers(r, seed, tier, model_ok):
+    """ONE container object holding an I/O action, reached several times in the printed value: printing executes the action each time it is met
+    (every occurrence reads its own line / writes again - once per OCCURRENCE, not once per object), and a container that was earlier named in a
+    caught not-found message prints as ever"""
+    if not model_ok: return
+    Rc = random.Random(seed * 7919 + 0xC18 + 10)
+    def nrm(f): f = list(f); f[0] = "V " + ",".join(str(ord(c)) for c in norm_dicts(decode_v(f[0])[2:])) if f[0].startswith("V ") else f[0]; return f
+    sc = []
+    ACTS = ["(ㄹㅎㄱ)", "(ㄴ ㅁㅈㅎㄴ ㅈㄹㅎㄴ)", "(ㄷ ㄱㅅㅎㄴ)", "((ㄹㅎㄱ) (ㄱㅇㄱ ㄱㅅㅎㄴ ㅎ) ㄱㄹㅎㄷ)", "((ㄹㅎㄱ) (ㄱㅇㄱ ㅈㄹㅎㄴ ㅎ) ㄱㄹㅎㄷ)"]
+    for _ in range(N(tier, 150, 2000)):
+        a_ = Rc.choice(ACTS); k = Rc.random()
+        L = f"({a_} ㅁㄹㅎㄴ)" if k < .3 else f"({E(1)} {a_} ㅁㄹㅎㄷ)" if k < .45 else f"({a_} ㄷㅂㅎㄴ)" if k < .6 else f"({E(0)} {a_} ㅅㅈㅎㄷ)" if k < .75 else a_       # ... or the action itself, shared
+        uses = " ".join(["ㄱㅇㄱ"] * Rc.choice([2, 2, 3])); m_ = len(uses.split()); shape = Rc.random()
+        if shape < .4: t = f"{L} (({uses} ㅁㄹㅎ{E(m_)}) ㅎ) ㅎㄴ"
+        elif shape < .5: t = f"{L} ((ㄱㅇㄱ ㄱㅇㄱ ㄷㅎㄷ) ㅎ) ㅎㄴ" if L != a_ and "ㅁㄹ" in L else f"{L} (({uses} ㄷㅂㅎ{E(m_)}) ㅎ) ㅎㄴ"                 # a list joined with itself / an exception value
+        elif shape < .7: t = f"{L} ((ㄱㅇㄱ (ㄱㅇㄱ ㅁㄹㅎㄴ) ㅁㄹㅎㄷ) ㅎ) ㅎㄴ"
+        elif shape < .85: t = f"{L} (((ㄱㅇㄱ (ㅅㅈㅎㄱ) ㅎㄴ) (ㄱ ㅎ) ㅅㄷㅎㄷ) ㄱㅇㄱ ㅁㄹㅎㄷ ㅎ) ㅎㄴ"          # first looked up in an empty dictionary (caught not-found, whose message shows the key), then printed
+        else: t = f"{L} ((ㄱㅇㄱ ㄱㅇㄱ ㄴㅎㄷ) ㄱㅇㄱ ㅁㄹㅎㄷ ㅎ) ㅎㄴ"                                              # first compared with itself, then printed
+        sc.append(dict(text=t, stdin=["a", "b", "c", "d"][:Rc.randrange(0, 5)], floats=True))
+    sa = impl_run(sc); sb = model_run(sc, tlimit=10); dist3, bad4 = compare(sc, sa, sb, fields=("res", "out", "rest"), norm=nrm)
+    r.slice("shared_containers_with_actions_vs_model", len(sc), len({c["text"] for c in sc}), [sc[0]["text"]], dict(outcomes=dict(dist3)), "one list / exception / dictionary holding an action (or the action itself), used 2-3 times in the printed value (or first in a caught failure / a comparison): result, output and input left vs the model", bad4)
+
 def c18_print(r, seed, tier, model_ok):
     """integers up to 2^10000 and doubles: ㅁㅈ then ㅈㅅ / ㅅㅅ gives the same number; sequences print contents in order; every
     insertion order of a dictionary prints identically (all permutations of <= 5 keys, key kinds incl. tied printed keys)"""
@@ -643,21 +674,7 @@ def c18_print(r, seed, tier, model_ok):
             z = f"({part()} {part()} ㅂㅅㅎㄷ)"; k = Rc.random()
             cc.append(dict(text=z if k < .6 else f"{z} {part()} ㅁㄹㅎㄷ" if k < .8 else f"{z} {E(1)} ㅅㅈㅎㄷ", floats=True, trace=False))
         ca = impl_run(cc); cb = model_run(cc, tlimit=10); dist2, bad3 = compare(cc, ca, cb, fields=("res",), norm=nrm)
-        # ONE container object holding an I/O action, reached several times in the printed value: printing executes the action each time it is met
-        # (every occurrence reads its own line / writes again), and a container that was earlier named in a caught not-found message prints as ever
-        sc = []
-        ACTS = ["(ㄹㅎㄱ)", "(ㄴ ㅁㅈㅎㄴ ㅈㄹㅎㄴ)", "(ㄷ ㄱㅅㅎㄴ)", "((ㄹㅎㄱ) (ㄱㅇㄱ ㄱㅅㅎㄴ ㅎ) ㄱㄹㅎㄷ)"]
-        for _ in range(N(tier, 150, 2000)):
-            a_ = Rc.choice(ACTS); k = Rc.random()
-            L = f"({a_} ㅁㄹㅎㄴ)" if k < .4 else f"({E(1)} {a_} ㅁㄹㅎㄷ)" if k < .6 else f"({a_} ㄷㅂㅎㄴ)" if k < .75 else f"({E(0)} {a_} ㅅㅈㅎㄷ)"
-            uses = " ".join(["ㄱㅇㄱ"] * Rc.choice([2, 2, 3])); m_ = len(uses.split()); shape = Rc.random()
-            if shape < .5: t = f"{L} (({uses} ㅁㄹㅎ{E(m_)}) ㅎ) ㅎㄴ"
-            elif shape < .7: t = f"{L} ((ㄱㅇㄱ (ㄱㅇㄱ ㅁㄹㅎㄴ) ㅁㄹㅎㄷ) ㅎ) ㅎㄴ"
-            elif shape < .85: t = f"{L} (((ㄱㅇㄱ (ㅅㅈㅎㄱ) ㅎㄴ) (ㄱ ㅎ) ㅅㄷㅎㄷ) ㄱㅇㄱ ㅁㄹㅎㄷ ㅎ) ㅎㄴ"          # first looked up in an empty dictionary (caught not-found, whose message shows the key), then printed
-            else: t = f"{L} ((ㄱㅇㄱ ㄱㅇㄱ ㄴㅎㄷ) ㄱㅇㄱ ㅁㄹㅎㄷ ㅎ) ㅎㄴ"                                              # first compared with itself, then printed
-            sc.append(dict(text=t, stdin=["a", "b", "c", "d"][:Rc.randrange(0, 5)], floats=True))
-        sa = impl_run(sc); sb = model_run(sc, tlimit=10); dist3, bad4 = compare(sc, sa, sb, fields=("res", "out", "rest"), norm=nrm)
-        r.slice("shared_containers_with_actions_vs_model", len(sc), len({c["text"] for c in sc}), [sc[0]["text"]], dict(outcomes=dict(dist3)), "one list / exception / dictionary holding an action, used 2-3 times in the printed value (or first in a caught failure / a comparison): result, output and input left vs the model", bad4)
+        shared_action_containers(r, seed, tier, model_ok)
         r.slice("complex_printing_vs_model", len(cc), len({c["text"] for c in cc}), [cc[0]["text"]], dict(outcomes=dict(dist2)), "complex numbers with parts on both sides of the print tolerances, zeros of both signs, infinities, huge values: printed form vs Float.show_complex", bad3)
 
 def c18_cli(r, seed, tier, model_ok):
